@@ -291,3 +291,29 @@ package tchannel
 //@   requires frame.Header.messageType == messageTypeCallReq ==> !has(c.relay.localHandler, bytestr(frame.Payload[31:31+u8at(frame.Payload, 30)]))
 //@   requires receivedTTL(frame) == be32(frame.Payload, 1) && relayMaxOf(frame) == c.relay.maxTimeout
 //@   property C08
+
+// ---------------------------------------------------------------------------
+// arg2 appends (C08): "the destination sees the original pairs followed by the
+// appended ones" -- every pair the relay host appends is recorded, after the
+// pairs recorded before, which stay as they are.
+// ---------------------------------------------------------------------------
+//@ func (f *lazyCallReq) Arg2Append(key, val []byte)
+//@   label every-append-is-recorded-at-the-end
+//@   ensures len(f.arg2Appends) == old(len(f.arg2Appends)) + 1
+//@   ensures f.arg2Appends[old(len(f.arg2Appends))].Key == key && f.arg2Appends[old(len(f.arg2Appends))].Val == val
+//@   label earlier-appends-stay-as-they-are
+//@   ensures forall i int :: 0 <= i && i < old(len(f.arg2Appends)) ==> f.arg2Appends[i].Key == old(f.arg2Appends[i].Key) && f.arg2Appends[i].Val == old(f.arg2Appends[i].Val)
+//@   property C08
+
+// Each relayed call whose arg2 is modified keeps its OWN running checksum for
+// the continuation frames that follow: the checksum a new relay item gets was
+// handed out by the pool for this call (calls on one connection interleave
+// frame by frame, a shared object would mix their sums).
+//@ func (r *Relayer) addRelayItem(isOriginator bool, id, remapID uint32, destination *Relayer, ttl time.Duration, span Span, call RelayCall, mutatedChecksum Checksum) (item relayItem)
+//@   nilable call mutatedChecksum
+//@   label running-checksum-belongs-to-this-call-only
+//@   requires mutatedChecksum != nil ==> handed(mutatedChecksum) == 1
+//@   modifies handed(mutatedChecksum)
+// (written with ite: a nil interface has no identity of its own in the engine's model)
+//@   defines handed(mutatedChecksum) == ite(mutatedChecksum != nil, 0, old(handed(mutatedChecksum)))
+//@   property C08
